@@ -709,6 +709,35 @@ def check_breaks(stmts, in_loop=False):
             check_breaks(s[3], True)
 
 
+# In the setattr functions `traito` is the trait found on the object and `traitd` the trait that defines the behaviour
+# (they differ only under delegation, which this cluster does not model: the interpreter identifies the two pointers).
+# The translator therefore checks that each is used for exactly what the model attributes to it.
+TRAITO_FIELDS = {"notifiers", "getattr"}
+TRAITD_FIELDS = {"flags", "validate", "post_setattr"}
+FIRST_ARG = {"default_value_for": "traitd", "validate": "traitd", "post_setattr": "traitd", "getattr": "traito"}
+
+
+def check_trait_roles(fname, params, top):
+    if not ("traito" in params and "traitd" in params):
+        return
+    for st in walk_stmts(top):
+        for e0 in stmt_exprs(st):
+            for e in walk_expr(e0):
+                if e[0] == "field" and e[1] == ("id", "traito") and e[2] not in TRAITO_FIELDS:
+                    raise Unsupported("%s reads traito->%s (the model reads it from traitd)" % (fname, e[2]))
+                if e[0] == "field" and e[1] == ("id", "traitd") and e[2] not in TRAITD_FIELDS:
+                    raise Unsupported("%s reads traitd->%s (the model reads it from traito)" % (fname, e[2]))
+                if e[0] == "call":
+                    f = e[1]
+                    cal = f[1] if f[0] == "id" else f[2] if f[0] == "field" else None
+                    if cal in FIRST_ARG and e[2]:
+                        if e[2][0] != ("id", FIRST_ARG[cal]):
+                            raise Unsupported("%s calls %s with %r as its trait, the model with %s" % (
+                                fname, cal, e[2][0], FIRST_ARG[cal]))
+                        if f[0] == "field" and f[1] != ("id", FIRST_ARG[cal]):
+                            raise Unsupported("%s calls %s of %r, the model of %s" % (fname, cal, f[1], FIRST_ARG[cal]))
+
+
 def translate_function(csrc, name, macros, defines):
     params, body = function_source(csrc, name)
     p = Parser(tokenize(body), macros)
@@ -720,6 +749,7 @@ def translate_function(csrc, name, macros, defines):
         items.extend(p.statement())
     top = eliminate_gotos(items)
     check_breaks(top)
+    check_trait_roles(name, params, top)
     if not ends_in_return(top):
         raise Unsupported("%s does not end in return" % name)
     dup = [d for d in p.decls if d in params]
